@@ -5,7 +5,7 @@ rewritten to the worker's worktree), applies a seeded patch there, runs the quic
 (or the given ones) in its copy, and reverts.  /repo and /verif/evidence stay as they are, so this can run next to
 ordinary checks.
 
-usage: tools/par_seeds.py [-j K] [--checks C06,C07] [--update] <Cxx-n ...|all|round=N|prop=Cxx>
+usage: tools/par_seeds.py [-j K] [--checks C06,C07 | --checks-from-meta] [--update] <Cxx-n ...|all|round=N|prop=Cxx|clean>
   --update   write the outcome back into seeded/<id>/meta.json (caught_by is extended, never shortened)
 exit 1 when a change recorded as caught by its own property's check is no longer caught."""
 import glob
@@ -72,6 +72,8 @@ def main():
             checks = args.pop(0).split(",")
         elif a == "--update":
             update = True
+        elif a == "--checks-from-meta":
+            checks = "meta"
         else:
             sel.append(a)
     names = sorted((os.path.basename(d) for d in glob.glob(os.path.join(V, "seeded", "C*-*"))), key=key)
@@ -117,7 +119,9 @@ def main():
                     continue
                 res = {}
                 try:
-                    for c in ([meta["property"]] if meta.get("clean") else (checks or [meta["property"]])):
+                    cl = [meta["property"]] if meta.get("clean") else \
+                        ((meta.get("checks_run") or [meta["property"]]) if checks == "meta" else (checks or [meta["property"]]))
+                    for c in cl:
                         try:
                             rc, out = sh("./check %s --tier quick" % c, cwd=ver, timeout=3600, env=env)
                         except subprocess.TimeoutExpired:
